@@ -47,7 +47,8 @@ Definition sessionless_send (o : operation) (lun : N) (r : request) (script : li
   | _ => {| lr_sent := []; lr_codes := []; lr_outcome := OSerialize; lr_seq := 0 |}
   end.
 
-(* ---- in-session command: every attempt takes the next sequence number and a fresh IV ---- *)
+(* ---- in-session command: every attempt that produces a datagram takes the next sequence number and a fresh IV;
+   a request that cannot be serialised sends nothing and takes none ---- *)
 Fixpoint session_loop (s : session) (o : operation) (lun : N) (body : bytes) (seq : N) (ivs : list bytes)
          (script : list (option bytes)) (sent : list bytes) (codes : list N) : loop_result :=
   match script with
@@ -68,7 +69,7 @@ Fixpoint session_loop (s : session) (o : operation) (lun : N) (body : bytes) (se
               | VFault => {| lr_sent := sent'; lr_codes := codes; lr_outcome := OFault; lr_seq := seq' |}
               end
           end
-      | _ => {| lr_sent := sent; lr_codes := codes; lr_outcome := OSerialize; lr_seq := seq' |}
+      | _ => {| lr_sent := sent; lr_codes := codes; lr_outcome := OSerialize; lr_seq := seq |}
       end
   end.
 
@@ -76,7 +77,7 @@ Definition session_send (s : session) (seq : N) (ivs : list bytes) (o : operatio
            (script : list (option bytes)) : loop_result :=
   match ser_request r [] with
   | Ok body => session_loop s o lun body seq ivs script [] []
-  | _ => {| lr_sent := []; lr_codes := []; lr_outcome := OSerialize; lr_seq := u32 (seq + 1) |}
+  | _ => {| lr_sent := []; lr_codes := []; lr_outcome := OSerialize; lr_seq := seq |}   (* nothing sent: no number taken *)
   end.
 
 (* ---- session-setup payload exchange ---- *)
